@@ -18,6 +18,9 @@ func ValidateDeploymentGroups(gspecs []GroupSpec) error {
 	if len(gspecs) == 0 {
 		return ErrInvalidGroups
 	}
+	if count := len(gspecs); count > validationConfig.MaxGroupCount {
+		return errors.Errorf("too many groups (%v > %v)", count, validationConfig.MaxGroupCount)
+	}
 
 	names := make(map[string]int, len(gspecs)) // Used as set
 	for _, group := range gspecs {
